@@ -127,7 +127,32 @@ func (g *Gen) instrMods(fc *FnCtx, fn *ssa.Function, in ssa.Instruction, ms *Mod
 		// deferred calls: accounted at the Defer instruction
 	case ssa.CallInstruction:
 		ms.add(g.callMods(fc, fn, x.Common()))
+		// addresses of scalar fields, elements or variables passed to the callee: the location may be written through
+		// the pointer whatever the callee's frame says (mirrors clobberAddrArgs, which does this at the call itself)
+		if csp := g.calleeSpec(x.Common()); csp == nil || !csp.Pure {
+			for _, a := range x.Common().Args {
+				pt := pointee(a.Type())
+				if pt == nil || kindOf(pt) == KStruct || kindOf(pt) == KArray {
+					continue
+				}
+				switch a.(type) {
+				case *ssa.FieldAddr, *ssa.IndexAddr, *ssa.Alloc, *ssa.FreeVar, *ssa.Global:
+					g.staticAddrNames(fc, fn, a, pt, ms)
+				}
+			}
+		}
 	}
+}
+
+// calleeSpec: the contract of a statically known callee, if any.
+func (g *Gen) calleeSpec(c *ssa.CallCommon) *FuncSpec {
+	if c.IsInvoke() {
+		return g.specs.Funcs[typeKey(c.Value.Type())+"."+c.Method.Name()]
+	}
+	if f := c.StaticCallee(); f != nil {
+		return g.specFor(f)
+	}
+	return nil
 }
 
 func (g *Gen) allocNames(fc *FnCtx, t types.Type, ms *ModSet) {
@@ -1006,6 +1031,14 @@ type propFlag struct {
 // applyContract: assert requires, havoc modifies, assume ensures.
 func (fr *Frame) applyContract(sp *FuncSpec, fn *ssa.Function, name string, pnames []string, args []Val, resT types.Type, sig *types.Signature, b *ssa.BasicBlock, st *State, guard string, in ssa.Instruction) (Val, *State) {
 	fc := fr.fc
+	var beforeCover *Oblig
+	if siteCoversFlag && fr.isTop && len(sp.Ensures) > 0 && !fc.relMode && fc.spec != nil {
+		// reachability of the call itself (a path that is dead under the caller's own preconditions is not a vacuity
+		// introduced by this contract)
+		beforeCover = &Oblig{Name: fmt.Sprintf("%s/cover:before#%d@%s", fc.spec.Name, fc.coverN+1, name), Kind: "cover", Cover: true, QFOnly: true, Lazy: true,
+			goal: guard, Tags: fc.spec.allTags(), Text: "the call is reachable"}
+		fc.addOblig(beforeCover)
+	}
 	env := &Env{fc: fc, names: map[string]Val{}, state: st, old: st, pkg: fc.g.pkg.Pkg, errs: &fc.errs}
 	if fn != nil && fn.Pkg != nil {
 		env.pkg = fn.Pkg.Pkg
@@ -1280,6 +1313,14 @@ func (fr *Frame) applyContract(sp *FuncSpec, fn *ssa.Function, name string, pnam
 	if sp.Trusted {
 		fc.note("assumed contract: " + name)
 	}
+	if siteCoversFlag && fr.isTop && len(sp.Ensures) > 0 && !fc.relMode {
+		// consistency of what has just been assumed: the point after the call must still be reachable under the
+		// quantifier-free part of the assumptions (a contract that contradicts the frame applied to it - or the facts
+		// the caller already has - would otherwise make everything after the call provable)
+		fc.coverN++
+		fc.addOblig(&Oblig{Name: fmt.Sprintf("%s/cover:after#%d@%s", fc.spec.Name, fc.coverN, fc.lastSite), Kind: "cover", Cover: true, QFOnly: true, Before: beforeCover,
+			goal: guard, Tags: fc.spec.allTags(), Text: "the state after this call is consistent with its contract"})
+	}
 	fr.recordPropagation(in, name, res, guard)
 	return res, nst
 }
@@ -1540,6 +1581,10 @@ func (fr *Frame) clobberAddrArgs(c *ssa.CallCommon, st *State) *State {
 		ad, ok := fr.addrs[a]
 		if !ok {
 			continue
+		}
+		// handing out the address of a guarded field is an access to it (e.g. atomic.AddInt64(&s.refs, 1))
+		if in, ok := a.(ssa.Instruction); ok && ad.Kind == aField {
+			fr.guardedAccess(ad, in.Block(), in, st, true)
 		}
 		pt := pointee(a.Type())
 		if pt == nil || kindOf(pt) == KStruct || kindOf(pt) == KArray {
